@@ -3,6 +3,7 @@ package value
 import (
 	"context"
 	"fmt"
+	"reflect"
 	"sort"
 	"strings"
 
@@ -11,6 +12,40 @@ import (
 
 type ValueAnyObject struct {
 	FieldsInternal map[string]*Value
+}
+
+// Whether the field map `target` (of an object or any-object) is reachable from `val`.
+func reachesFields(val Value, target uintptr, depth int) bool {
+	if val == nil || depth > 10000 {
+		return false
+	}
+	switch inner := val.(type) {
+	case ValueAnyObject:
+		return reflect.ValueOf(inner.FieldsInternal).Pointer() == target || reachesFieldMap(inner.FieldsInternal, target, depth)
+	case ValueObject:
+		return reflect.ValueOf(inner.FieldsInternal).Pointer() == target || reachesFieldMap(inner.FieldsInternal, target, depth)
+	case ValueList:
+		if inner.Values == nil {
+			return false
+		}
+		for _, element := range *inner.Values {
+			if element != nil && reachesFields(*element, target, depth+1) {
+				return true
+			}
+		}
+	case ValueOption:
+		return inner.Inner != nil && reachesFields(*inner.Inner, target, depth+1)
+	}
+	return false
+}
+
+func reachesFieldMap(fields map[string]*Value, target uintptr, depth int) bool {
+	for _, field := range fields {
+		if field != nil && reachesFields(*field, target, depth+1) {
+			return true
+		}
+	}
+	return false
 }
 
 func (_ ValueAnyObject) Kind() ValueKind { return AnyObjectValueKind }
@@ -60,6 +95,11 @@ func (self ValueAnyObject) IsEqual(other Value) (bool, *VmInterrupt) {
 func (self ValueAnyObject) Fields() (map[string]*Value, *VmInterrupt) {
 	return map[string]*Value{
 		"set": NewValueBuiltinFunction(func(executor Executor, cancelCtx *context.Context, span errors.Span, args ...Value) (*Value, *VmInterrupt) {
+			// Values are finite trees everywhere else (their static types are): an any-object which contains itself
+			// would send display, equality, clone and JSON encoding into an endless recursion.
+			if reachesFields(args[1], reflect.ValueOf(self.FieldsInternal).Pointer(), 0) {
+				return nil, NewVMThrowInterrupt(span, "cannot put an any-object into itself")
+			}
 			self.FieldsInternal[args[0].(ValueString).Inner] = &args[1]
 			return NewValueNull(), nil
 		}),
